@@ -318,10 +318,10 @@ def oracle_generated(case):
 
 def parts(tier):
     configs = QUICK_CONFIGS if tier == "quick" else list(CONFIGS)
-    n = 3000 if tier == "quick" else 40000
+    n = 3000 if tier == "quick" else 200000
     return [Part("vocabulary", oracle_enum, enumerate_fn=make_enum(configs), exhaustive=True),
             Part("random", oracle_random, strategy=random_strategy(configs), n=n),
-            Part("generated-schemas", oracle_generated, strategy=generated_case(), n=24 if tier == "quick" else 640)]
+            Part("generated-schemas", oracle_generated, strategy=generated_case(), n=24 if tier == "quick" else 2400)]
 
 
 def extra_evidence(tier):
